@@ -22,6 +22,9 @@ structure St where
   top     : Nat := 0
   n       : NSrv := {}      -- the wallet's NotificationServer (one TransactionNotifications client registered)
   broken  : Bool := false   -- sticky: mined records of two different blocks at one height (wtxmgr iteration fails)
+  recw      : Nat := 0          -- the running wallet's recovery window (Loader option; `reconnect` runs recovery again)
+  connected : Bool := true      -- false between `disc` and `reconnect`: the backend moves, the wallet is not told
+  inflight  : Option Nat := none -- a rescan in flight: the height its `RescanFinished` will report
 
 def St.content (s : St) : Content :=
   { time := fun b => match s.blocks.get? (b.headD 0) with | some i => i.time | none => 0
@@ -76,7 +79,7 @@ def natOf (toks : List String) (k : String) : Option Nat := (kv toks k).bind Str
 /-- Apply an evolution step: notifications only when the wallet is running. -/
 def applyStep (s : St) (st : Step) : St :=
   let tip' := stepTip s.tip st
-  if s.running then
+  if s.running && s.connected then
     let p := processN s.cfg (s.w, s.n) (ntfnsOf s.content s.tip st)
     { s with w := p.1, n := p.2, tip := tip' }
   else { s with tip := tip' }
@@ -87,7 +90,7 @@ def step (s : St) (line : String) : St × String :=
   | "init" :: rest =>
     match natOf rest "W", natOf rest "batch", natOf rest "gt" with
     | some W, some batch, some gt =>
-      let s0 : St := { inited := true, W := W, batch := batch, running := true,
+      let s0 : St := { inited := true, W := W, batch := batch, running := true, recw := (natOf rest "recw").getD 0,
                        blocks := ({} : Std.HashMap Nat BlockInfo).insert 0 ⟨[], gt, []⟩ }
       let s1 := { s0 with w := genesisWallet s0.content }
       (s1, showState s1)
@@ -134,27 +137,27 @@ def step (s : St) (line : String) : St × String :=
       | some id =>
         match s.blocks.get? id with
         | some bi =>
-          if !s.running || ancestorAt s.tip bi.bid.length == bi.bid then (s, "bad-op")
+          if !s.running || !s.connected || ancestorAt s.tip bi.bid.length == bi.bid then (s, "bad-op")
           else
             let s' := applyStep s (.staleDisconnect bi.bid)
             (s', showState s')
         | none => (s, "bad-op")
       | none => (s, "bad-op")
     | "dupc" =>
-      if !s.running then (s, "bad-op") else
+      if !s.running || !s.connected then (s, "bad-op") else
       let s' := applyStep s .dupConnect
       (s', showState s')
     | "duptx" =>
       match natOf rest "h" with
       | some h =>
-        if !s.running || h > s.tip.length then (s, "bad-op") else
+        if !s.running || !s.connected || h > s.tip.length then (s, "bad-op") else
         let s' := applyStep s (.dupTxs h)
         (s', showState s')
       | none => (s, "bad-op")
     | "mtx" =>
       match natOf rest "tx" with
       | some id =>
-        if !s.running then (s, "bad-op") else
+        if !s.running || !s.connected then (s, "bad-op") else
         let s' := applyStep s (.mempoolTx ⟨id, false⟩)
         (s', showState s')
       | none => (s, "bad-op")
@@ -163,7 +166,7 @@ def step (s : St) (line : String) : St × String :=
       | some k, some id =>
         match s.blocks.get? id with
         | some bi =>
-          if !s.running then (s, "bad-op") else
+          if !s.running || !s.connected then (s, "bad-op") else
           let st := stampOf s.content bi.bid
           let n : Option Ntfn := if k == "c" then some (.connected st) else if k == "d" then some (.disconnected st) else none
           match n with
@@ -175,15 +178,45 @@ def step (s : St) (line : String) : St × String :=
         | none => (s, "bad-op")
       | _, _ => (s, "bad-op")
     | "stop" =>
-      let s' := { s with running := false }
+      let s' := { s with running := false, connected := true, inflight := none }
       (s', showState s')
+    | "disc" =>
+      if !s.running || !s.connected || s.inflight.isSome then (s, "bad-op") else
+      let s' := { s with connected := false }
+      (s', showState s')
+    | "reconnect" =>
+      match natOf rest "recw" with
+      | some recw =>
+        if !s.running || s.inflight.isSome || recw != s.recw then (s, "bad-op") else
+        let (p', ok) := resyncN s.cfg recw s.batch (s.w, s.n) s.tip
+        if ok then
+          let s' := { s with w := p'.1, n := p'.2, connected := true, inflight := some s.tip.length }
+          (s', showState s')
+        else ({ s with w := p'.1, n := {}, running := false, connected := true, inflight := none }, "sync-stuck")
+      | none => (s, "bad-op")
+    | "importkey" =>
+      match natOf rest "k", natOf rest "from" with
+      | some _, some h =>
+        if !s.running || !s.connected || s.inflight.isSome || h > s.tip.length then (s, "bad-op") else
+        -- the imported key has no transactions: the rescan reports nothing, the wallet's chain state is untouched
+        let s' := { s with inflight := some s.tip.length }
+        (s', showState s')
+      | _, _ => (s, "bad-op")
+    | "rfin" =>
+      match s.inflight with
+      | some n =>
+        if !s.running then (s, "bad-op") else
+        let p := handleN s.cfg (s.w, s.n) (.rescanFinished s.tip n)
+        let s' := { s with w := p.1, n := p.2, inflight := none }
+        (s', showState s')
+      | none => (s, "bad-op")
     | "start" =>
       match natOf rest "recw" with
       | some recw =>
         if s.running then (s, "bad-op") else
         let (p', ok) := startupDuringN s.cfg recw s.batch s.w s.tip []
         if ok then
-          let s' := { s with w := p'.1, n := p'.2, running := true }
+          let s' := { s with w := p'.1, n := p'.2, running := true, recw := recw, connected := true, inflight := none }
           (s', showState s')
         else ({ s with w := p'.1, n := {}, running := false }, "sync-stuck")
       | none => (s, "bad-op")
@@ -195,7 +228,7 @@ def step (s : St) (line : String) : St × String :=
           if s.running || bi.bid.tail != s.tip || bi.bid == [] then (s, "bad-op") else
           let (p', ok) := startupDuringN s.cfg 0 s.batch s.w s.tip (connectNtfns s.content m bi.bid)
           if ok then
-            let s' := { s with w := p'.1, n := p'.2, running := true, tip := bi.bid }
+            let s' := { s with w := p'.1, n := p'.2, running := true, tip := bi.bid, recw := 0, connected := true, inflight := none }
             (s', showState s')
           else ({ s with w := p'.1, n := {}, running := false, tip := bi.bid }, "sync-stuck")
         | none => (s, "bad-op")
